@@ -4,7 +4,6 @@
 namespace c02
 {
 void register_wchar(bool thorough);
-void register_static();
 }
 
 int main(int argc, char **argv)
@@ -24,6 +23,5 @@ int main(int argc, char **argv)
       }, 120);
   }
   c02::register_wchar(th);
-  c02::register_static();
   return vrt::run(argc, argv);
 }
